@@ -141,7 +141,14 @@ def h_kernel(p):
 def h_ipc(p):
     from pyxel.models.charge_collection.inter_pixel_capacitance import compute_ipc_convolution, simple_ipc
 
-    fr = np.array(p["frame"], dtype=float)
+    tall = p.get("tall")
+    if tall:
+        # a tall, thin frame: `base` everywhere, a few deviations (summing to zero) inside the window rows w0..w1
+        fr = np.full((tall["rows"], tall["cols"]), float(tall["base"]), dtype=float)
+        for r_, c_, dv in tall["hot"]:
+            fr[r_, c_] += dv
+    else:
+        fr = np.array(p["frame"], dtype=float)
     if p["path"] == "func":
         out = compute_ipc_convolution(input=fr.copy(), coupling=p["c"], diagonal_coupling=p["d"],
                                       anisotropic_coupling=p["a"])
@@ -154,7 +161,25 @@ def h_ipc(p):
     out = np.asarray(out, dtype=float)
     if out.shape != fr.shape:
         return {"raise": f"shape:{out.shape}"}
+    if tall:
+        w0, w1 = tall["w0"], tall["w1"]
+        # dense reference: every pixel = sum of the nine weights times its neighbours, the frame extended with its mean
+        k = np.asarray(ipc_kernel_ref(p["c"], p["d"], p["a"]))
+        ext = np.full((fr.shape[0] + 2, fr.shape[1] + 2), fr.mean())
+        ext[1:-1, 1:-1] = fr
+        ref = sum(k[i, j] * ext[2 - i:2 - i + fr.shape[0], 2 - j:2 - j + fr.shape[1]] for i in range(3) for j in range(3))
+        dev = np.abs(out - ref)
+        outside = np.abs(np.concatenate([out[:w0], out[w1:]]) - float(tall["base"]))
+        worst = int(np.argmax(dev.max(axis=1)))
+        return {"out": hx2(out[w0:w1]), "tall": {"dense_dev": hx([dev.max()])[0], "dense_row": worst,
+                                                 "outside_dev": hx([outside.max() if outside.size else 0.0])[0],
+                                                 "finite": bool(np.isfinite(out).all())}}
     return {"out": hx2(out)}
+
+
+def ipc_kernel_ref(c, d, a):
+    """the 3x3 weights as the property text gives them (not read from the implementation)"""
+    return [[d, c - a, d], [c + a, 1 - 4 * (c + d), c + a], [d, c - a, d]]
 
 
 def h_persist(p):
